@@ -16,7 +16,7 @@ import (
 func init() {
 	register("C11",
 		"equality of two routes' arithmetic when they read the same inputs (the duplicated nine-star formulas are each evaluated against one statement, R16.5); agreement of routes that are not paired by name or by the explicit pair table.",
-		r11_1, r11_2, r11_3, r11_4, r11_5, r16_2, r11_6, r16_5, r18_6)
+		r11_1, r11_2, r11_3, r11_4, r11_5, r16_2, r11_6, r16_5, r18_6, r05_7)
 }
 
 // ---------- delegation shape ----------
